@@ -304,6 +304,7 @@ static void report(const char *entry, const struct svc *s, const char *symptom, 
         if (cc) {
                 char e[64]; snprintf(e, sizeof e, "%s", entry);
                 char *q = strstr(e, " (second frame)"); if (q) *q = 0;
+                q = strstr(e, " (max_lines = transmitted lines)"); if (q) *q = 0;
                 snprintf(key, sizeof key, "%s: line not decoded or payload bits differ [%s]", e, cc);
         } else if (s) snprintf(key, sizeof key, "%s: %s %s %s", entry, kind_name[s->kind], symptom, region(s, c->rate, c->fmt));
         else snprintf(key, sizeof key, "%s: %s", entry, symptom);
@@ -439,6 +440,17 @@ static int run_raw_decoders(const struct ctx *c, const vbi_sampling_par *dsp, co
                 ok = check_records(pass ? "vbi3_raw_decoder (second frame)" : "vbi3_raw_decoder", c, e, ne, out, n, cap, g);
                 evals += ne ? ne : 1;
                 free(out);
+        }
+        /* an output array of exactly as many records as lines were transmitted (fewer than scan lines: the
+         * data lines lie behind blank ones) still receives every one of them: max_lines counts records, not scan lines */
+        if (ok && ne > 0 && (unsigned) ne < max_lines) {
+                unsigned ml = ne, cap2 = ml + (cap - max_lines);
+                vbi_sliced *out = out_alloc(cap2);
+                unsigned n = vbi3_raw_decoder_decode(rd, out, ml, raw);
+                ok = check_records("vbi3_raw_decoder (max_lines = transmitted lines)", c, e, ne, out, n, cap2, g);
+                evals += ne;
+                free(out);
+                OUTCOME("sparse frame decoded into an array of exactly the transmitted number of records");
         }
         vbi3_raw_decoder_delete(rd);
         if (!g) OUTCOME("all services refused (legitimate)");
